@@ -319,11 +319,11 @@ class Crazyflie():
         """Remove the callback cb on port and channel"""
         self.incoming.remove_header_callback(cb, port, channel, port_mask, channel_mask)
 
-    def _no_answer_do_retry(self, pk, pattern):
+    def _no_answer_do_retry(self, pk, pattern, timeout=0.2):
         """Resend packets that we have not gotten answers to"""
         logger.info('Resending for pattern %s', pattern)
         # Set the timer to None before trying to send again
-        self.send_packet(pk, expected_reply=pattern, resend=True)
+        self.send_packet(pk, expected_reply=pattern, resend=True, timeout=timeout)
 
     def _check_for_answers(self, pk):
         """
@@ -373,7 +373,8 @@ class Crazyflie():
                         pattern)
                     new_timer = Timer(timeout,
                                       lambda: self._no_answer_do_retry(pk,
-                                                                       pattern))
+                                                                       pattern,
+                                                                       timeout))
                     self._answer_patterns[pattern] = new_timer
                     new_timer.start()
                 elif resend:
@@ -385,7 +386,7 @@ class Crazyflie():
                             new_timer = Timer(timeout,
                                               lambda:
                                               self._no_answer_do_retry(
-                                                  pk, pattern))
+                                                  pk, pattern, timeout))
                             self._answer_patterns[pattern] = new_timer
                             new_timer.start()
                     else:
